@@ -91,8 +91,10 @@ def tiny_label(rng):
     segs = [("name", "A"), ("between", " "), ("eq", "="), ("between", " "),
             ("quoted", q + "s t" + q), ("between", " "),
             ("comment", "/* c */"), ("between", "\n"),
-            ("name", "B"), ("between", "="), ("unquoted", "v1"),
+            ("name", "B"), ("between", "="), ("unquoted", "12"),
             ("between", " "), ("units", "<m>"), ("between", "\n"),
+            ("name", "C"), ("between", " = "), ("unquoted", "v1"),
+            ("between", "\n"),
             ("END", "END"), ("afterEND", "\n")]
     if rng.random() < 0.3:
         segs = segs[:-2]
@@ -393,7 +395,11 @@ class C15(Property):
                 continue
             ns = segs[:i] + segs[i + 1:]
             np_ = p - (b - a) if b <= p else p
-            yield dict(case, segs=ns, p=np_)
+            # the locality oracle presumes an undamaged label that loads
+            t2, _ = layout([tuple(x) for x in ns])
+            if all(dialects.load(cfg, t2).kind == "ok"
+                   for cfg in case.get("configs", ["PVL"])):
+                yield dict(case, segs=ns, p=np_)
 
     def signature(self, case, v):
         return v.raw_sig
